@@ -113,4 +113,22 @@ PROPS = {
                               {"test": "^TestC06ExtraBit$", "shards": 2, "timeout": 1200},
                               {"test": "^TestC06Kick$", "shards": 4, "checks": 5000, "timeout": 3400}]},
     },
+    "C07": {
+        "title": "All filesystem effects stay inside the file root / config dir",
+        "level": "exploration",
+        "rule": "rapid-generated sequences of 1-3 requests out of 20 kinds (list, info, comment, rename, delete, move, new folder, alias, "
+                "download + transfer, upload + transfer, folder download + transfer, folder upload with item headers from the stream, "
+                "new/set/update(create,rename,delete)/delete/get user, login) whose names, path items, new names, destinations, item "
+                "paths and logins are drawn 60% from a traversal-token dictionary ('..', '.', '', '/', absolute, NUL, '../x', 253-255 "
+                "byte items, Mac-Roman high bytes, names of decoys) and whose path encodings are sometimes inconsistent (count / length "
+                "byte / truncation); server config-wide or per-account file root; sandbox with decoy siblings (Files-evil, Users.bak, "
+                "canary files with unique markers); oracle: snapshot of the sandbox minus the legitimate subtree (file root for file "
+                "requests, Users for account requests) identical before/after each request, no alias pointing outside the root, no decoy "
+                "marker in any reply or transfer stream, no decoy name in a file list; non-trivial = at least one traversal token or "
+                "inconsistent encoding AND a request was answered; distinct = hash(request descriptions)",
+        "assumptions": ["requester holds all privileges (C05 is checked separately)"],
+        "quick": {"runs": [{"test": "^TestC07$", "shards": 16, "checks": 700, "timeout": 600}]},
+        "thorough": {"runs": [{"test": "^TestC07$", "shards": 16, "checks": 14000, "timeout": 3400},
+                              {"fuzz": "^FuzzC07$", "test": "FuzzC07", "fuzztime": "180s", "timeout": 600, "group": 1, "weight": 16}]},
+    },
 }
